@@ -39,6 +39,14 @@ func (c *ShipConnection) protocolHandshake() model.MessageProtocolHandshake {
 func (c *ShipConnection) handshakeProtocol_smeProtHStateServerListenProposal(message []byte) {
 	_, data := c.parseMessage(message, true)
 
+	// the reply to an earlier hello prolongation request may still be on its way
+	// when a pending request gets approved, it is not a protocol handshake message
+	var helloMsg model.ConnectionHello
+	if err := json.Unmarshal([]byte(data), &helloMsg); err == nil &&
+		helloMsg.ConnectionHello.Phase == model.ConnectionHelloPhaseTypeReady {
+		return
+	}
+
 	messageProtocolHandshake := model.MessageProtocolHandshake{}
 	if err := json.Unmarshal([]byte(data), &messageProtocolHandshake); err != nil {
 		c.endHandshakeWithError(err)
